@@ -7,7 +7,7 @@ EXTRA = {'C08_2': ['C12'], 'C04_2': [], 'C06_2': ['C16'], 'C05_2': ['C17'], 'C02
 
 def run_check(pid, tier='quick'):
     p = subprocess.run([f'{ROOT}/bin/check', pid, '--tier', tier], capture_output=True, text=True, cwd=ROOT,
-                       env=dict(os.environ, VERIF_SCRATCH=os.environ.get('VERIF_SCRATCH', '/tmp/verif_scratch')))
+                       env=dict(os.environ, VERIF_SCRATCH=os.environ.get('VERIF_SCRATCH', '/tmp/verif_scratch_mut')))
     viol = [l for l in p.stdout.splitlines() if l.startswith('VIOLATION')]
     return p.returncode, len(viol), (p.stderr[-400:] if p.returncode == 2 else '')
 
